@@ -149,6 +149,7 @@ class Program:
         self.functions: dict[str, FunctionInfo] = {}
         self.classes: dict[str, ClassInfo] = {}
         self.n_calls = 0
+        self.by_node = {}
         self._load()
 
     # ------------------------------------------------------------------ loading
@@ -220,8 +221,13 @@ class Program:
 
     def _index_function(self, node, m, cls, parent, prefix):
         q = f"{prefix}.{node.name}"
+        k = 2
+        while q in self.functions:  # two defs of the same name (e.g. one per branch): keep both
+            q = f"{prefix}.{node.name}#{k}"
+            k += 1
         fi = FunctionInfo(node.name, q, node, m, cls, parent)
         self.functions[q] = fi
+        self.by_node[id(node)] = fi
         if parent is not None:
             parent.nested[node.name] = fi
         elif cls is not None:
